@@ -39,7 +39,7 @@ def _type_check_expression(expression, source_file_name, ir, errors):
     elif expression_variety == "boolean_constant":
         _type_check_boolean_constant(expression)
     elif expression_variety == "builtin_reference":
-        _type_check_builtin_reference(expression)
+        _type_check_builtin_reference(expression, source_file_name, errors)
     else:
         assert False, "Unknown expression variety {!r}".format(expression_variety)
 
@@ -479,12 +479,25 @@ def _type_check_boolean_constant(expression):
     _annotate_as_boolean(expression)
 
 
-def _type_check_builtin_reference(expression):
+def _type_check_builtin_reference(expression, source_file_name, errors):
     name = expression.builtin_reference.canonical_name.object_path[0]
     if name == "$is_statically_sized":
         _annotate_as_boolean(expression)
     elif name == "$static_size_in_bits":
         _annotate_as_integer(expression)
+    elif name == "$next":
+        # Every `$next` in a field location has been replaced or reported by
+        # synthetics; what is left is in a place where it has no meaning.
+        errors.append(
+            [
+                error.error(
+                    source_file_name,
+                    expression.source_location,
+                    "`$next` may only be used in the start expression of a "
+                    + "physical field.",
+                )
+            ]
+        )
     else:
         assert False, "Unknown builtin '{}'.".format(name)
 
